@@ -486,6 +486,50 @@ def run(ctx):
             ctx.count_case(("refused", i, how))
             events.append(heap_event("project mutations %s" % how, [("A", pa), ("B", pb)]))
             traces.append({"id": "project%d/%s" % (i, how), "events": events})
+    # copies made through Python's copy protocols (copy.deepcopy, pickle) of a project whose MultiCtl drives an Amplifier and
+    # whose MetaModule exposes an embedded controller: operations that work THROUGH a module's project (a MultiCtl feed, an
+    # embedded controller heard by its MetaModule) on the copy leave the original alone, and the other way round
+    import copy as _copy2
+    import pickle as _pickle
+    def driven_project():
+        pj = api.Project()
+        amp = pj.new_module(api.m.Amplifier)
+        mc = api.m.MultiCtl.macro(pj, (amp, "volume"))
+        mm = pj.new_module(api.m.MetaModule)
+        ea = mm.project.new_module(api.m.Amplifier)
+        mm.mappings.values[0].module, mm.mappings.values[0].controller = ea.index, 0
+        mm.user_defined_controllers = 1
+        mm.update_user_defined_controllers()
+        return pj
+    def drive(pj, v):
+        mc = next(m_ for m_ in pj.modules if m_ is not None and m_.mtype == "MultiCtl")
+        mc.value = v
+        mm = next(m_ for m_ in pj.modules if m_ is not None and m_.mtype == "MetaModule")
+        mm.project.modules[1].volume = v // 64
+        mm.user_defined_1 = v // 128
+    for how, cp in (("deepcopy", _copy2.deepcopy), ("pickle", lambda o: _pickle.loads(_pickle.dumps(o)))):
+        try:
+            pa = driven_project()
+            pb = cp(pa)
+        except Exception as e:
+            if how == "pickle":
+                continue            # (pickling is not promised; where it works the copy is independent)
+            raised("copies/%s!" % how, "copy protocol " + how, e, [])
+            continue
+        events = [heap_event("project copied by " + how, [("A", pa), ("B", pb)])]
+        for who, (x, y) in (("copy-driven", (pb, pa)), ("original-driven", (pa, pb))):
+            sb, bb, pj0 = digest(y, spec)
+            try:
+                drive(x, 20000 if who == "copy-driven" else 9000)
+            except Exception as e:
+                raised("copies/%s!%s" % (how, who), "copy protocol " + how, e, events)
+                break
+            sa, ba, pj1 = digest(y, spec)
+            events.append({"op": "mutate", "kind": who, "provenance": "project copied by " + how, "state_before": sb, "state_after": sa,
+                           "bytes_before": bb, "bytes_after": ba, "diff": first_diff(pj0, pj1)})
+            ctx.count_case(("copies", how, who), nontrivial=True)
+        else:
+            traces.append({"id": "copies/" + how, "events": events})
     # an attached MetaModule next to independently constructed neighbours: writing its user-defined controllers reaches the
     # EMBEDDED modules they are mapped to, never the modules at the same positions of the outer project
     simple = [api.m.Amplifier, api.m.Filter, api.m.Distortion, api.m.Reverb, api.m.Compressor]
